@@ -1,9 +1,444 @@
-From Coq Require Import Reals List Arith Lra Lia.
+(* Proofs about Model/Estimators.v, part 1: validity of the distributions (C05). *)
+From Coq Require Import Reals List Arith Lra Lia Bool.
 From OSU.Model Require Import Estimators.
+From OSU.Lib Require Import EstAuxSums.
 Import ListNotations.
 Open Scope R_scope.
 
-Lemma to_2d_length : forall e D, length (to_2d e D) = Nat.min (length e) (length D).
+(* ------------------------------------------------------------------ *)
+(* MEM                                                                  *)
+(* ------------------------------------------------------------------ *)
+Lemma mem_den_nonneg : forall p q t, 0 <= mem_den p q t.
 Proof.
-  unfold to_2d. induction e; destruct D; simpl; auto.
+  intros. unfold mem_den. cbv zeta.
+  match goal with |- 0 <= ?a * ?a + ?b * ?b =>
+    pose proof (Rle_0_sqr a); pose proof (Rle_0_sqr b); unfold Rsqr in *; lra end.
+Qed.
+
+(* what the guard of mem_point establishes *)
+Lemma mem_point_some : forall th a1 b1 a2 b2 D,
+  mem_point th a1 b1 a2 b2 = Some D ->
+  mem_one_minus_c1sq a1 b1 <> 0 /\
+  (forall t, In t th -> 0 < mem_den (mem_phi1 a1 b1 a2 b2) (mem_phi2 a1 b1 a2 b2) t) /\
+  mem_norm (mem_raw th a1 b1 a2 b2) <> 0 /\
+  D = map (fun x => x / mem_norm (mem_raw th a1 b1 a2 b2)) (mem_raw th a1 b1 a2 b2).
+Proof.
+  intros th a1 b1 a2 b2 D H. unfold mem_point in H.
+  destruct (mem_guard th a1 b1 a2 b2) eqn:G; [|discriminate].
+  inversion H; subst; clear H. unfold mem_guard in G.
+  destruct (Req_EM_T (mem_one_minus_c1sq a1 b1) 0) as [|N1]; [discriminate|].
+  destruct (existsb _ th) eqn:E; [discriminate|].
+  destruct (Req_EM_T (mem_norm (mem_raw th a1 b1 a2 b2)) 0) as [|N3]; [discriminate|].
+  repeat split; auto.
+  intros t Ht.
+  assert (Hne : mem_den (mem_phi1 a1 b1 a2 b2) (mem_phi2 a1 b1 a2 b2) t <> 0).
+  { intro Z. assert (existsb (fun t0 => if Req_EM_T (mem_den (mem_phi1 a1 b1 a2 b2) (mem_phi2 a1 b1 a2 b2) t0) 0
+                                       then true else false) th = true).
+    { apply existsb_exists. exists t. split; auto. destruct (Req_EM_T _ 0); auto. }
+    congruence. }
+  pose proof (mem_den_nonneg (mem_phi1 a1 b1 a2 b2) (mem_phi2 a1 b1 a2 b2) t). lra.
+Qed.
+
+Definition mem_g (a1 b1 a2 b2 t : R) : R :=
+  / mem_den (mem_phi1 a1 b1 a2 b2) (mem_phi2 a1 b1 a2 b2) t / PI / 2.
+
+Lemma mem_raw_factor : forall th a1 b1 a2 b2,
+  mem_raw th a1 b1 a2 b2 = map (fun t => mem_num a1 b1 a2 b2 * mem_g a1 b1 a2 b2 t) th.
+Proof.
+  intros. unfold mem_raw. cbv zeta. apply map_ext. intro t. unfold mem_g, Rdiv. ring.
+Qed.
+
+Lemma mem_g_pos : forall a1 b1 a2 b2 t,
+  0 < mem_den (mem_phi1 a1 b1 a2 b2) (mem_phi2 a1 b1 a2 b2) t -> 0 < mem_g a1 b1 a2 b2 t.
+Proof.
+  intros. unfold mem_g, Rdiv. pose proof PI_RGT_0.
+  apply Rmult_lt_0_compat; [apply Rmult_lt_0_compat|]; try (apply Rinv_0_lt_compat; lra).
+Qed.
+
+(* The MEM rows are non-negative and integrate to one in the discrete sense, whatever the sign of the
+   numerator (also for unrealisable moments): it cancels in the normalisation. *)
+Lemma mem_valid : forall th a1 b1 a2 b2 D,
+  mem_point th a1 b1 a2 b2 = Some D ->
+  Forall (fun x => 0 <= x) D /\ sumR D * (2 * PI / INR (length th)) = 1 /\ length D = length th.
+Proof.
+  intros th a1 b1 a2 b2 D H.
+  destruct (mem_point_some _ _ _ _ _ _ H) as (N1 & Hden & N3 & HD).
+  set (nu := mem_num a1 b1 a2 b2) in *.
+  set (g := mem_g a1 b1 a2 b2).
+  assert (Hraw : mem_raw th a1 b1 a2 b2 = map (fun t => nu * g t) th) by apply mem_raw_factor.
+  assert (Hsum : sumR (mem_raw th a1 b1 a2 b2) = nu * sumR (map g th)).
+  { rewrite Hraw. apply sumR_map_scal. }
+  assert (Hlen : length (mem_raw th a1 b1 a2 b2) = length th).
+  { rewrite Hraw. apply map_length. }
+  assert (Hth : th <> []).
+  { intro E. subst th. apply N3. unfold mem_norm. simpl. unfold Rdiv. ring. }
+  assert (HN : 0 < INR (length th)).
+  { apply lt_0_INR. destruct th; [congruence | simpl; lia]. }
+  assert (HG : 0 < sumR (map g th)).
+  { apply sumR_pos. { destruct th; [congruence | simpl; congruence]. }
+    apply Forall_forall. intros x Hx. apply in_map_iff in Hx. destruct Hx as (t & <- & Ht).
+    apply mem_g_pos. auto. }
+  pose proof PI_RGT_0 as Hpi.
+  assert (Hnorm : mem_norm (mem_raw th a1 b1 a2 b2) = nu * sumR (map g th) * PI * 2 / INR (length th)).
+  { unfold mem_norm. rewrite Hsum, Hlen. reflexivity. }
+  assert (Hnu : nu <> 0).
+  { intro Z. apply N3. rewrite Hnorm, Z. unfold Rdiv. ring. }
+  split; [|split].
+  - subst D. apply Forall_forall. intros x Hx. apply in_map_iff in Hx. destruct Hx as (w & <- & Hw).
+    rewrite Hraw in Hw. apply in_map_iff in Hw. destruct Hw as (t & <- & Ht).
+    rewrite Hnorm.
+    replace (nu * g t / (nu * sumR (map g th) * PI * 2 / INR (length th)))
+      with (g t * INR (length th) / (sumR (map g th) * PI * 2)) by (field; repeat split; lra).
+    apply Rlt_le. apply Rdiv_lt_0_compat.
+    + apply Rmult_lt_0_compat; auto. apply mem_g_pos; auto.
+    + apply Rmult_lt_0_compat; [apply Rmult_lt_0_compat|]; lra.
+  - subst D. unfold Rdiv at 1.
+    rewrite (sumR_map_scal_r (fun x => x) (/ mem_norm (mem_raw th a1 b1 a2 b2))). rewrite map_id.
+    rewrite Hnorm at 1. rewrite Hsum. field. repeat split; lra.
+  - subst D. rewrite map_length. exact Hlen.
+Qed.
+
+(* the guards pass on the premises of the property *)
+Lemma mem_point_defined : forall th a1 b1 a2 b2,
+  th <> [] -> a1 * a1 + b1 * b1 < 1 -> mem_num a1 b1 a2 b2 <> 0 ->
+  (forall t, In t th -> mem_den (mem_phi1 a1 b1 a2 b2) (mem_phi2 a1 b1 a2 b2) t <> 0) ->
+  exists D, mem_point th a1 b1 a2 b2 = Some D.
+Proof.
+  intros th a1 b1 a2 b2 Hth Hc Hnu Hden.
+  unfold mem_point.
+  assert (G : mem_guard th a1 b1 a2 b2 = true).
+  { unfold mem_guard.
+    destruct (Req_EM_T (mem_one_minus_c1sq a1 b1) 0) as [Z|_].
+    { unfold mem_one_minus_c1sq in Z. lra. }
+    destruct (existsb _ th) eqn:E.
+    { apply existsb_exists in E. destruct E as (t & Ht & Hb).
+      destruct (Req_EM_T _ 0) as [Z|]; [|discriminate]. exfalso. eapply Hden; eauto. }
+    destruct (Req_EM_T (mem_norm (mem_raw th a1 b1 a2 b2)) 0) as [Z|_]; auto.
+    exfalso. unfold mem_norm in Z. rewrite mem_raw_factor in Z.
+    rewrite sumR_map_scal, map_length in Z.
+    assert (HG : 0 < sumR (map (mem_g a1 b1 a2 b2) th)).
+    { apply sumR_pos. { destruct th; [congruence | simpl; congruence]. }
+      apply Forall_forall. intros x Hx. apply in_map_iff in Hx. destruct Hx as (t & <- & Ht).
+      apply mem_g_pos. pose proof (mem_den_nonneg (mem_phi1 a1 b1 a2 b2) (mem_phi2 a1 b1 a2 b2) t).
+      specialize (Hden t Ht). lra. }
+    assert (HN : 0 < INR (length th)).
+    { apply lt_0_INR. destruct th; [congruence | simpl; lia]. }
+    pose proof PI_RGT_0.
+    assert (P : 0 < sumR (map (mem_g a1 b1 a2 b2) th) * PI * 2 / INR (length th)).
+    { apply Rdiv_lt_0_compat; auto. apply Rmult_lt_0_compat; [apply Rmult_lt_0_compat|]; lra. }
+    replace (mem_num a1 b1 a2 b2 * sumR (map (mem_g a1 b1 a2 b2) th) * PI * 2 / INR (length th))
+      with (mem_num a1 b1 a2 b2 * (sumR (map (mem_g a1 b1 a2 b2) th) * PI * 2 / INR (length th))) in Z
+      by (unfold Rdiv; ring).
+    apply Rmult_integral in Z. destruct Z; [contradiction | lra]. }
+  rewrite G. eexists; reflexivity.
+Qed.
+
+(* in the units returned by estimate_directional_distribution (per degree), on N directions *)
+Lemma mem_estimate_valid : forall dirs a1 b1 a2 b2 D,
+  estimate_entry VMem dirs (Some a1) (Some b1) (Some a2) (Some b2) = EDist D ->
+  dirs <> [] ->
+  mem_guard (to_rad dirs) a1 b1 a2 b2 = true ->
+  exists xs, D = map Some xs /\ Forall (fun x => 0 <= x) xs /\
+             sumR xs * (360 / INR (length dirs)) = 1 /\ length xs = length dirs.
+Proof.
+  intros dirs a1 b1 a2 b2 D H Hne G.
+  assert (HN : 0 < INR (length dirs)).
+  { apply lt_0_INR. destruct dirs; [congruence | simpl; lia]. }
+  unfold estimate_entry in H. simpl in H.
+  destruct (mem_point (to_rad dirs) a1 b1 a2 b2) as [D0|] eqn:E.
+  2:{ unfold mem_point in E. rewrite G in E. discriminate. }
+  inversion H; subst; clear H.
+  destruct (mem_valid _ _ _ _ _ _ E) as (Hpos & Hsum & Hlen).
+  unfold to_rad in Hlen, Hsum. rewrite map_length in Hlen, Hsum.
+  exists (map (fun x => x * jac_deg) D0). split; [|split; [|split]].
+  - rewrite map_map. reflexivity.
+  - apply Forall_forall. intros x Hx. apply in_map_iff in Hx. destruct Hx as (y & <- & Hy).
+    rewrite Forall_forall in Hpos. specialize (Hpos y Hy). unfold jac_deg.
+    pose proof PI_RGT_0. apply Rmult_le_pos; auto. apply Rlt_le. apply Rdiv_lt_0_compat; lra.
+  - rewrite sumR_map_scal_r, map_id. unfold jac_deg.
+    replace (sumR D0 * (PI / 180) * (360 / INR (length dirs)))
+      with (sumR D0 * (2 * PI / INR (length dirs))) by (field; lra).
+    exact Hsum.
+  - rewrite map_length. auto.
+Qed.
+
+(* ------------------------------------------------------------------ *)
+(* MEM2: exp(-(lambda.T - min)) / normalisation is a distribution for EVERY lambda *)
+(* ------------------------------------------------------------------ *)
+Lemma shape_length : forall l th, length (shape l th) = length th.
+Proof. intros. unfold shape, shifted. rewrite !map_length. reflexivity. Qed.
+
+Lemma shape_pos : forall l th, Forall (fun x => 0 < x) (shape l th).
+Proof.
+  intros. unfold shape. apply Forall_forall. intros x Hx.
+  apply in_map_iff in Hx. destruct Hx as (y & <- & _). apply exp_pos.
+Qed.
+
+Lemma wsum_scal_r : forall f c d, wsum (map (fun e => e * c) f) d = wsum f d * c.
+Proof.
+  induction f; intros; simpl; [unfold wsum; simpl; lra|].
+  destruct d; [unfold wsum; simpl; lra|]. rewrite !wsum_cons, IHf. lra.
+Qed.
+
+Lemma shape_wsum_pos : forall l d th,
+  th <> [] -> length d = length th -> Forall (fun x => 0 < x) d -> 0 < wsum (shape l th) d.
+Proof.
+  intros. apply wsum_pos; auto.
+  - intro E. apply (f_equal (@length R)) in E. rewrite shape_length in E. destruct th; simpl in *; congruence.
+  - rewrite shape_length; auto.
+  - apply shape_pos.
+Qed.
+
+Lemma mem2_dist_valid : forall l d th,
+  th <> [] -> length d = length th -> Forall (fun x => 0 < x) d ->
+  Forall (fun x => 0 < x) (dist l d th) /\ wsum (dist l d th) d = 1 /\ length (dist l d th) = length th.
+Proof.
+  intros l d th Hth Hl Hd.
+  pose proof (shape_wsum_pos l d th Hth Hl Hd) as HZ.
+  unfold dist, normalization. cbv zeta. split; [|split].
+  - apply Forall_forall. intros x Hx. apply in_map_iff in Hx. destruct Hx as (e & <- & He).
+    pose proof (shape_pos l th) as Hp. rewrite Forall_forall in Hp. specialize (Hp e He).
+    apply Rmult_lt_0_compat; auto. apply Rdiv_lt_0_compat; lra.
+  - rewrite wsum_scal_r. field. lra.
+  - rewrite map_length. apply shape_length.
+Qed.
+
+(* the one documented exception: a NaN in the first guess gives the all-zero row *)
+Lemma nan_guess_zero : forall approx mo d th,
+  newton_solver approx mo None d th = Dist (map (fun _ => 0) d) None.
+Proof. reflexivity. Qed.
+
+(* every distribution the modelled solver returns for a finite guess is dist(lambda) for some lambda,
+   whatever the status of the iteration (converged, max_iter, failed line search) *)
+Lemma newton_solver_is_dist : forall approx mo g d th D st,
+  newton_solver approx mo (Some g) d th = Dist D st -> exists l, D = dist l d th.
+Proof.
+  intros approx mo g d th D st H. unfold newton_solver in H.
+  destruct approx.
+  - inversion H. eexists; reflexivity.
+  - destruct (newton_status _); inversion H; eexists; reflexivity.
+Qed.
+
+Lemma newton_solver_valid : forall approx mo g d th D st,
+  th <> [] -> length d = length th -> Forall (fun x => 0 < x) d ->
+  newton_solver approx mo (Some g) d th = Dist D st ->
+  Forall (fun x => 0 < x) D /\ wsum D d = 1 /\ length D = length th.
+Proof.
+  intros. destruct (newton_solver_is_dist _ _ _ _ _ _ _ H2) as (l & ->).
+  apply mem2_dist_valid; auto.
+Qed.
+
+Lemma incr_ok_pos : forall d, incr_ok d = true -> Forall (fun x => 0 < x) d.
+Proof.
+  intros d H. unfold incr_ok in H. rewrite forallb_forall in H.
+  apply Forall_forall. intros x Hx. specialize (H x Hx). destruct (Rlt_dec 0 x); [auto | discriminate].
+Qed.
+
+Lemma incr_newton_length : forall th, length (incr_newton th) = length th.
+Proof. intros. unfold incr_newton. rewrite map_length, seq_length. reflexivity. Qed.
+
+(* estimate_directional_distribution with method mem2 (newton / approximate), finite moments:
+   the returned row (per degree) is positive and integrates to one against the increments in degrees *)
+Opaque newton_solver.
+Lemma mem2_estimate_valid : forall v dirs a1 b1 a2 b2 D,
+  v <> VMem -> dirs <> [] ->
+  estimate_entry v dirs (Some a1) (Some b1) (Some a2) (Some b2) = EDist D ->
+  exists xs, D = map Some xs /\ Forall (fun x => 0 < x) xs /\
+             wsum xs (map (fun w => w / jac_deg) (incr_newton (to_rad dirs))) = 1 /\
+             length xs = length dirs.
+Proof.
+  intros v dirs a1 b1 a2 b2 D Hv Hd H.
+  assert (Hj : 0 < jac_deg). { unfold jac_deg. pose proof PI_RGT_0. apply Rdiv_lt_0_compat; lra. }
+  unfold estimate_entry in H.
+  destruct v; [congruence| |];
+  (destruct (incr_ok (incr_newton (to_rad dirs))) eqn:OK; [|discriminate];
+   simpl in H;
+   match type of H with match ?s with _ => _ end = _ => destruct s as [D0 st| |] eqn:E end; try discriminate;
+   inversion H; subst; clear H;
+   assert (Hth : to_rad dirs <> []) by (unfold to_rad; destruct dirs; [congruence | simpl; congruence]);
+   destruct (newton_solver_valid _ _ _ _ _ _ _ Hth (incr_newton_length _) (incr_ok_pos _ OK) E) as (Hp & Hs & Hl);
+   exists (map (fun x => x * jac_deg) D0); split; [rewrite map_map; reflexivity|]; split;
+   [ apply Forall_forall; intros x Hx; apply in_map_iff in Hx; destruct Hx as (y & <- & Hy);
+     rewrite Forall_forall in Hp; specialize (Hp y Hy); apply Rmult_lt_0_compat; auto
+   | split;
+     [ rewrite <- Hs; unfold wsum; clear - Hj; generalize (incr_newton (to_rad dirs)) as d;
+       induction D0; intros d; destruct d; simpl; auto; rewrite IHD0; field; lra
+     | rewrite map_length, Hl; unfold to_rad; apply map_length ] ]).
+Qed.
+
+Transparent newton_solver.
+
+(* NaN moments: MEM2 gives zeros, MEM gives NaN *)
+Lemma map_const_eq : forall {A B C} (c : C) (l1 : list A) (l2 : list B),
+  length l1 = length l2 -> map (fun _ => c) l1 = map (fun _ => c) l2.
+Proof.
+  induction l1; destruct l2; simpl; intros; try discriminate; auto. f_equal. apply IHl1. lia.
+Qed.
+
+Lemma estimate_nan_moments : forall v dirs a1 b1 a2 b2,
+  all_some4 a1 b1 a2 b2 = None ->
+  incr_ok (incr_newton (to_rad dirs)) = true ->
+  estimate_entry v dirs a1 b1 a2 b2 =
+    match v with
+    | VMem => EDist (map (fun _ => None) dirs)
+    | _ => EDist (map (fun _ => Some 0) dirs)
+    end.
+Proof.
+  intros v dirs a1 b1 a2 b2 H OK. unfold estimate_entry. rewrite H.
+  destruct v.
+  - unfold to_rad. rewrite map_map. reflexivity.
+  - rewrite OK. simpl. rewrite map_map. rewrite Rmult_0_l.
+    f_equal. apply map_const_eq. rewrite incr_newton_length. unfold to_rad. apply map_length.
+  - rewrite OK. simpl. rewrite map_map. rewrite Rmult_0_l.
+    f_equal. apply map_const_eq. rewrite incr_newton_length. unfold to_rad. apply map_length.
+Qed.
+
+(* ------------------------------------------------------------------ *)
+(* energy round trip, batch independence, metadata                      *)
+(* ------------------------------------------------------------------ *)
+Lemma energy_roundtrip_row : forall step row e, wsum row step = 1 -> dint step (map (fun x => x * e) row) = e.
+Proof. intros. unfold dint. rewrite wsum_scal_r, H. lra. Qed.
+
+Lemma energy_roundtrip : forall step e D,
+  length e = length D -> Forall (fun row => wsum row step = 1) D ->
+  map (dint step) (to_2d e D) = e.
+Proof.
+  intros step e. induction e; intros D Hl HD; destruct D; simpl in *; try discriminate; auto.
+  inversion HD; subst. f_equal.
+  - apply energy_roundtrip_row; auto.
+  - apply IHe; auto.
+Qed.
+
+Lemma variance_preserved : forall f step e D,
+  length e = length D -> Forall (fun row => wsum row step = 1) D ->
+  trapz f (map (dint step) (to_2d e D)) = trapz f e.
+Proof. intros. rewrite energy_roundtrip; auto. Qed.
+
+Lemma to_2d_nonneg : forall e D,
+  Forall (fun x => 0 <= x) e -> Forall (Forall (fun x => 0 <= x)) D ->
+  Forall (Forall (fun x => 0 <= x)) (to_2d e D).
+Proof.
+  intros e. induction e as [|ei e IH]; intros D He HD; destruct D as [|row D]; simpl; try constructor.
+  - apply Forall_inv in He. apply Forall_inv in HD.
+    apply Forall_forall. intros x Hx.
+    apply in_map_iff in Hx. destruct Hx as (y & <- & Hy).
+    rewrite Forall_forall in HD. apply Rmult_le_pos; auto.
+  - apply Forall_inv_tail in He. apply Forall_inv_tail in HD. apply IH; auto.
+Qed.
+
+Lemma to_2d_length : forall e D, length (to_2d e D) = Nat.min (length e) (length D).
+Proof. intros. unfold to_2d. apply map2_length. Qed.
+
+Lemma step360_sum : forall n, (0 < n)%nat -> sumR (step360 n) = 360.
+Proof.
+  intros. unfold step360. rewrite sumR_map_const, seq_length. field.
+  apply not_0_INR. lia.
+Qed.
+
+Lemma estimate_batch_independent : forall v dirs b i dflt,
+  (i < length b)%nat ->
+  nth i (estimate_batch v dirs b) dflt =
+  (let '(a1, b1, a2, b2) := nth i b (None, None, None, None) in estimate_entry v dirs a1 b1 a2 b2).
+Proof.
+  intros. unfold estimate_batch.
+  set (F := fun q : option R * option R * option R * option R =>
+              let '(a1, b1, a2, b2) := q in estimate_entry v dirs a1 b1 a2 b2).
+  rewrite (nth_indep (map F b) dflt (F (None, None, None, None))) by (rewrite map_length; auto).
+  rewrite (map_nth F). reflexivity.
+Qed.
+
+Lemma estimate_batch_length : forall v dirs b, length (estimate_batch v dirs b) = length b.
+Proof. intros. apply map_length. Qed.
+
+(* the result for one entry does not depend on the rest of the batch: same entry alone = same entry in any batch *)
+Lemma estimate_batch_single : forall v dirs b i q,
+  nth_error b i = Some q ->
+  nth_error (estimate_batch v dirs b) i = nth_error (estimate_batch v dirs [q]) 0.
+Proof.
+  intros. unfold estimate_batch. rewrite nth_error_map, H. reflexivity.
+Qed.
+
+(* every non-spectral variable (time, latitude, longitude, depth, ...) is carried over unchanged;
+   the spectral ones are replaced by the single 2D density *)
+Lemma meta_carried : forall {P} (vars : list (vname * P)) e2d k p,
+  In (NOther k, p) vars <-> In (NOther k, p) (carry_vars vars e2d).
+Proof.
+  intros. unfold carry_vars. split; intro H.
+  - right. apply filter_In. split; auto.
+  - destruct H as [H|H]; [discriminate|]. apply filter_In in H. tauto.
+Qed.
+
+Lemma meta_only_density : forall {P} (vars : list (vname * P)) e2d n p,
+  In (n, p) (carry_vars vars e2d) -> is_spectral n = true -> n = NE /\ p = e2d.
+Proof.
+  intros P vars e2d n p H S. destruct H as [H|H].
+  - inversion H; auto.
+  - apply filter_In in H. destruct H as [_ H]. simpl in H. rewrite S in H. discriminate.
+Qed.
+
+(* ------------------------------------------------------------------ *)
+(* Newton iteration: status Converged => residual below atol (C06)      *)
+(* ------------------------------------------------------------------ *)
+Lemma linesearch_ok : forall depth cur upd mo d th fac magF magCur magUpd lg nxt nf lg',
+  linesearch depth cur upd mo d th fac magF magCur magUpd lg = (LSok nxt nf, lg') ->
+  nf = constraints nxt mo d th /\ norm4 nf < magF.
+Proof.
+  induction depth; intros; simpl in H; [discriminate|].
+  destruct (Rlt_dec _ magF).
+  - inversion H; subst. auto.
+  - destruct (Req_EM_T magUpd 0); [discriminate|]. eapply IHdepth; eauto.
+Qed.
+
+Lemma newton_loop_converged : forall fuel depth atol cur F mo d th lg it st l lg' it',
+  F = constraints cur mo d th ->
+  newton_loop fuel depth atol cur F mo d th lg it = (st, l, lg', it') ->
+  st = Converged -> norm4 (constraints l mo d th) < atol.
+Proof.
+  induction fuel; intros depth atol cur F mo d th lg it st l lg' it' HF H Hst; simpl in H.
+  - inversion H; subst. discriminate.
+  - destruct (Rlt_dec (norm4 F) atol).
+    + inversion H; subst. auto.
+    + destruct (chol_solve (jacobian cur d th) (neg4 F)) as [sol plg].
+      destruct sol as [upd|]; [|inversion H; subst; discriminate].
+      destruct (linesearch depth cur upd mo d th 1 (norm4 F) (norm4 cur) (norm4 upd) _) as [r lg3] eqn:LS.
+      destruct r as [nxt nf| |].
+      * apply linesearch_ok in LS. destruct LS as [Hnf _].
+        eapply IHfuel; eauto.
+      * inversion H; subst; discriminate.
+      * inversion H; subst; discriminate.
+Qed.
+
+Lemma newton_converged_residual : forall max_iter depth atol mo g d th,
+  newton_status (newton max_iter depth atol mo g d th) = Converged ->
+  norm4 (constraints (newton_iterate (newton max_iter depth atol mo g d th)) mo d th) < atol.
+Proof.
+  intros. unfold newton in *.
+  destruct (newton_loop max_iter depth atol g (constraints g mo d th) mo d th [] 0) as [[[st l] lg'] it'] eqn:E.
+  unfold newton_status, newton_iterate in *. simpl in *.
+  eapply newton_loop_converged; eauto.
+Qed.
+
+(* the residual is the distance between the wanted moments and the moments of the returned distribution *)
+Lemma constraints_are_moment_errors : forall l mo d th m,
+  get4 (constraints l mo d th) m = get4 mo m - moment_of (match m with O => 0 | 1 => 1 | 2 => 2 | _ => 3 end)%nat (dist l d th) d th.
+Proof. intros. destruct m as [|[|[|m]]]; reflexivity. Qed.
+
+(* each accepted Newton update strictly decreases the residual norm *)
+Lemma newton_loop_monotone : forall fuel depth atol cur F mo d th lg it st l lg' it',
+  F = constraints cur mo d th ->
+  newton_loop fuel depth atol cur F mo d th lg it = (st, l, lg', it') ->
+  norm4 (constraints l mo d th) <= norm4 F.
+Proof.
+  induction fuel; intros depth atol cur F mo d th lg it st l lg' it' HF H; simpl in H.
+  - inversion H; subst. lra.
+  - destruct (Rlt_dec (norm4 F) atol).
+    + inversion H; subst. lra.
+    + destruct (chol_solve (jacobian cur d th) (neg4 F)) as [sol plg].
+      destruct sol as [upd|]; [|inversion H; subst; lra].
+      destruct (linesearch depth cur upd mo d th 1 (norm4 F) (norm4 cur) (norm4 upd) _) as [r lg3] eqn:LS.
+      destruct r as [nxt nf| |].
+      * apply linesearch_ok in LS. destruct LS as [Hnf Hlt].
+        specialize (IHfuel _ _ _ _ _ _ _ _ _ _ _ _ _ Hnf H). lra.
+      * inversion H; subst; lra.
+      * inversion H; subst; lra.
 Qed.
